@@ -34,8 +34,9 @@ Proof.
       pose proof (COS_bound (w * (PI / 180))) as Hc.
       apply Rabs_le. split; nra. }
     apply Rabs_le_bounds in Hb. apply Rabs_le_bounds in Hm. apply Rabs_le. lra. }
-  exists deps. pose proof (mean_obliquity_poly j Hu) as Hm.
-  pose proof (laskar_small _ Hu) as Hl. apply Rabs_def2 in Hl. apply Rabs_le_bounds in Hd.
+  assert (Hu4 : Rabs (uj j) <= 0.4) by lra.
+  exists deps. pose proof (mean_obliquity_poly j Hu4) as Hm.
+  pose proof (laskar_small _ Hu4) as Hl. apply Rabs_def2 in Hl. apply Rabs_le_bounds in Hd.
   repeat split; try assumption.
   - apply true_obliquity_sum; try assumption. unfold eps0. lra.
   - apply Rabs_le. lra.
